@@ -182,6 +182,32 @@ func copyCellChecks(w *World, r *Report, rule string) {
 			undecidedf("%s: peek reads no cell field", rule)
 		}
 	}
+	// … and what peek answers with is what the cell holds: no return after the once.Do call avoids the reads of the cell
+	// (the filler answering from its own locals differs from its siblings when the fill went through the recover handler)
+	{
+		var onceCall ssa.Instruction
+		instrs(peek, func(in ssa.Instruction) {
+			if calleeFullName(in) == "(*sync.Once).Do" {
+				onceCall = in
+			}
+		})
+		if onceCall != nil {
+			isCellRead := func(in ssa.Instruction) bool {
+				ld, ok := in.(*ssa.UnOp)
+				if !ok {
+					return false
+				}
+				for fa, ok := ld.X.(*ssa.FieldAddr); ok; fa, ok = fa.X.(*ssa.FieldAddr) {
+					if sameField(fieldVarOfAddr(fa), fItem) {
+						return true
+					}
+				}
+				return false
+			}
+			skip, wit := pathQuery{fn: peek, from: onceCall, goal: isReturn, avoid: isCellRead}.exists()
+			r.Check(!skip, rule, "peek answers from the cell on every path behind once.Do", onceCall.Pos(), "no return after the Once avoids reading cell.item", "a copy can return without reading the cell it has just been through ("+wit+"): the child that fills a cell answers from its locals — when the source panicked inside the Once the recover handler recorded the error in the cell, the filler's locals are still zero, so the filling copy sees a phantom zero item and then the error while its siblings see only the error: the copies' sequences differ, and which copy is affected depends on the read order")
+		}
+	}
 	// a panic of the source read inside once.Do leaves the Once done and the cell empty: every other copy would then
 	// read a zero item that was never sent and a nil `next` (taken for "closed"). The filler must recover and record
 	// the panic in the cell, and still link the next cell.
